@@ -899,11 +899,12 @@ func (fr *Frame) execRecv(i *ssa.UnOp) {
 	ch := fr.val(i.X)
 	et := i.X.Type().Underlying().(*types.Chan).Elem()
 	v := fr.freshVal("recv", et)
-	fr.onRecv(ch, v, i.Pos())
 	if i.CommaOk {
 		ok := fr.mkVal(fr.vc.fresh("recv.ok", SBool), types.Typ[types.Bool])
+		fr.onRecvOk(ch, v, ok.T, i.Pos())
 		fr.set(i, &Val{S: "Tuple", Typ: i.Type(), Tup: []*Val{v, ok}})
 	} else {
+		fr.onRecv(ch, v, i.Pos())
 		fr.set(i, v)
 	}
 }
